@@ -23,6 +23,7 @@ inline const std::vector<std::string>& base_menu() {
       "a:/.//p",                                    // non-special, '/.' guarded path
       "mailto:user@example.com?subject=x",          // opaque path with query
       "a:o p ",                                     // opaque path with inner and trailing space
+      "file:///c:x",                                // file, single segment that only starts like a drive letter
   };
   return b;
 }
@@ -138,7 +139,7 @@ inline const std::vector<std::string>& init_urls() {
       "https://" EACUTE "sp.example/", "ws://h/", "wss://h:444/x", "ftp://u@h/d/f", "file:///C:/x/y", "file://host/s/f",
       "file:///", "a://h:1/p?q#f", "a://u:p@h/p", "a:///p", "a:/p/q", "a:/.//p", "a:p", "a:o p ", "a:o p ?q",
       "mailto:u@h?s=1#f", "blob:https://h/id", "http://h/?#", "a://h", "a://h?q", "http://h:0/", "https://h/a/../b",
-      "a:/", "a:", "http://h:1000/p", "a://h:10000",
+      "a:/", "a:", "http://h:1000/p", "a://h:10000", "file:///c:x", "file:///C:",
   };
   return u;
 }
@@ -154,8 +155,8 @@ inline std::vector<OpVal> op_menu(bool thorough, bool with_clear) {
     add(SET_HOSTNAME, {"h2", "h:99", "", "2.3.4.5", "[1::]"});
     add(SET_PORT, {"", "80", "443", "8080", "1000", "99999", "1x"});
     add(SET_PATHNAME, {"", "/", "//x", "/a/../b", "c d", "/C|/z", "?#"});
-    add(SET_SEARCH, {"", "?", "a=b c"});
-    add(SET_HASH, {"", "#", "h h"});
+    add(SET_SEARCH, {"", "?", "a=b c", "\n?y"});
+    add(SET_HASH, {"", "#", "h h", "\t#x"});
     add(SET_HREF, {"http://new/", "a:b", "bad"});
   } else {
     add(SET_PROTOCOL, {"https", "http:", "file", "b", "ws:", "wss", "ftp", "1x", "", "a:b", "HTTPS", "Ws:", "fTp", "FILE", "B"});
@@ -167,8 +168,8 @@ inline std::vector<OpVal> op_menu(bool thorough, bool with_clear) {
                        "[::1", "a%41", "A", "x?y", "x#y", "4294967296"});
     add(SET_PORT, {"", "80", "443", "21", "8080", "0", "00090", "65535", "65536", "99999", "1x", "x", "8\t1", "9", "10", "100", "1000", "10000"});
     add(SET_PATHNAME, {"", "/", "//x", "/.//x", "/a/../b", "c d", "/C|/z", "C:/q", "?#", "/%2e/x", "\\a\\b", "/" EACUTE, "..", "/a/b/c/", "x", "/ "});
-    add(SET_SEARCH, {"", "?", "a=b c", "?x'y", "#", EACUTE, "??", "q\t"});
-    add(SET_HASH, {"", "#", "h h", "##", "`<>\"", EACUTE});
+    add(SET_SEARCH, {"", "?", "a=b c", "?x'y", "#", EACUTE, "??", "q\t", "\n?y", "?\tz"});
+    add(SET_HASH, {"", "#", "h h", "##", "`<>\"", EACUTE, "\t#x", "#\ty", "\n"});
     add(SET_HREF, {"http://new/", "a:b", "bad", "file:///D:/", "a://x:2/y?z#w"});
   }
   if (with_clear) { m.push_back({CLEAR_PORT, ""}); m.push_back({CLEAR_SEARCH, ""}); m.push_back({CLEAR_HASH, ""}); }
